@@ -34,6 +34,8 @@ type c40Req struct {
 	Outcome string // ok rec fail
 	Data    []c40Recv
 	Bad     string `json:",omitempty"` // request could not be decoded
+	At      int64  `json:",omitempty"` // wall clock (ms) at arrival; only used by the ageing part
+	Empty   bool   `json:",omitempty"` // the request body had zero bytes
 }
 
 // c40Fault is one entry of the fault script; the k-th arriving request gets Faults[k].
@@ -47,11 +49,13 @@ type c40Fake struct {
 	proto       int
 	v1Confirmed bool
 	faults      []c40Fault
+	recFor      time.Duration // ageing part: answer 503 to everything for this long after the first arrival
 
 	mu       sync.Mutex
+	firstArr time.Time
 	event    int
 	reqs     []*c40Req
-	finished int  // data in requests answered ok or fail (they will not come again)
+	finished int // data in requests answered ok or fail (they will not come again)
 	finG     map[int64]bool
 	drain    bool // watchdog fired: answer everything ok at once
 }
@@ -164,10 +168,17 @@ func (f *c40Fake) decode(req []byte) ([]c40Recv, string) {
 }
 
 func (f *c40Fake) Store(_ context.Context, req []byte, attempt int) (remote.WriteResponseStats, error) {
+	now := time.Now()
 	data, bad := f.decode(req) // req is reused by the sender after Store returns
 	f.mu.Lock()
 	f.event++
-	rq := &c40Req{Arr: f.event, Attempt: attempt, Data: data, Bad: bad, Outcome: "ok"}
+	rq := &c40Req{Arr: f.event, Attempt: attempt, Data: data, Bad: bad, Outcome: "ok", At: now.UnixMilli(), Empty: len(req) == 0}
+	if f.firstArr.IsZero() {
+		f.firstArr = now
+	}
+	if f.recFor > 0 && now.Sub(f.firstArr) < f.recFor && !f.drain {
+		rq.Outcome = "rec"
+	}
 	k := len(f.reqs)
 	f.reqs = append(f.reqs, rq)
 	var flt c40Fault
